@@ -39,6 +39,13 @@ def build_module():
         m.add_func([I32, I32], [I32], [], [('local.get', 0), ('local.get', 1), ('memory.atomic.notify', 2, o)], export='notify_o%d' % o)
         if o % 8 == 0:
             m.add_func([I32, I64, I64], [I32], [], [('local.get', 0), ('local.get', 1), ('local.get', 2), ('memory.atomic.wait64', 3, o)], export='wait64_o%d' % o)
+    # the same instructions in expression context: other operands (of several types) are pending beneath them and are consumed afterwards
+    m.add_func([I32, I32], [I32], [], [('local.get', 0), ('local.get', 1), ('i32.const', 1), ('memory.atomic.notify', 2, 0), ('i32.add',)], export='ctx_notify')
+    m.add_func([I32, I32], [I64], [(1, I64)], [('i64.const', 5000000000), ('f64.const', 0x4004000000000000), ('local.get', 0), ('local.get', 1), ('i32.const', 3), ('memory.atomic.notify', 2, 4), ('i32.add',),
+                                      ('i64.extend_i32_u',), ('local.set', 2), ('i64.trunc_f64_s',), ('i64.add',), ('local.get', 2), ('i64.add',)], export='ctx_notify_deep')
+    m.add_func([I32, I32, I32], [I32], [], [('local.get', 0), ('local.get', 1), ('local.get', 2), ('i64.const', 0), ('memory.atomic.wait32', 2, 0), ('i32.add',)], export='ctx_wait32')
+    m.add_func([I32, I32, I64], [I64], [(1, I64)], [('f32.const', 0x40a00000), ('local.get', 0), ('i64.extend_i32_u',), ('local.get', 1), ('local.get', 2), ('i64.const', 0), ('memory.atomic.wait64', 3, 8),
+                                           ('i64.extend_i32_u',), ('i64.add',), ('local.set', 3), ('i64.trunc_f32_s',), ('local.get', 3), ('i64.add',)], export='ctx_wait64')
     return m
 
 
@@ -93,6 +100,18 @@ def probes(chk, w2c2):
         nk = plan.fk('notify_o%d' % o)
         lines.append('c 0 %d %s 0x5' % (nk, hex(A)))
         exp.append((0, 'notify offset=%d with no waiters' % o))
+    # expression context
+    st32, st64 = plan.fk('store32'), plan.fk('store64')
+    lines += ['c 0 %d 0x900 0x7' % st32, 'c 0 %d 0x908 0x1100000022' % st64]
+    exp += [None, None]
+    for line, want, what in (('c 0 %d 0x64 0x900' % plan.fk('ctx_notify'), 100, 'notify offset=0 in expression context (operand pending beneath), no waiters'),
+                             ('c 0 %d 0x64 0x900' % plan.fk('ctx_notify_deep'), 5000000000 + 2 + 100, 'notify offset=4 beneath i64 / f64 operands, no waiters'),
+                             ('c 0 %d 0x64 0x900 0x7' % plan.fk('ctx_wait32'), 102, 'wait32 offset=0 in expression context, equal, timeout 0'),
+                             ('c 0 %d 0x64 0x900 0x8' % plan.fk('ctx_wait32'), 101, 'wait32 offset=0 in expression context, different'),
+                             ('c 0 %d 0x64 0x900 0x1100000022' % plan.fk('ctx_wait64'), 5 + 100 + 2, 'wait64 offset=8 beneath an f32 operand, equal, timeout 0'),
+                             ('c 0 %d 0x64 0x900 0x1100000023' % plan.fk('ctx_wait64'), 5 + 100 + 1, 'wait64 offset=8 beneath an f32 operand, different')):
+        lines.append(line)
+        exp.append((want, what))
     script = '\n'.join(lines) + '\n'
     d = env.subdir('c17-probe')
     st, out, r = e2e.build_and_run(w2c2, b, plan, script, d, cflags=['-O1', '-g', '-fsanitize=address,undefined', '-fno-sanitize-recover=all'],
@@ -325,11 +344,17 @@ def main(chk):
         mode = r0.choice([3, 3, 1, 2, 0])
         jobs.append((k, tag, scenario, W, N, na, mode))
 
+    hangs = {}
+
     def one(job):
         k, tag, scenario, W, N, na, mode = job
         exe, guard = exes[tag]
+        if hangs.get(tag, 0) >= 3:
+            return job, None     # three histories of this build already ran into the watchdog (each is judged): skip the rest of this build
         r = env.run([exe, str(env.SEED * 100000 + k), str(scenario), str(W), str(N), str(na), str(mode)],
                     env=dict(env.SAN_ENV, TSAN_OPTIONS='halt_on_error=0:exitcode=0:report_thread_leaks=0'), timeout=150)
+        if r.timeout or 'HANG' in r.out:
+            hangs[tag] = hangs.get(tag, 0) + 1
         return job, r
 
     total_events = 0
@@ -337,6 +362,9 @@ def main(chk):
     waits = 0
     sigs = set()
     for (k, tag, scenario, W, N, na, mode), r in env.pmap(one, jobs):
+        if r is None:
+            chk.observe('histories_skipped_after_three_hangs_' + tag)
+            continue
         exe, guard = exes[tag]
         cmd = 'futex_stress[%s] %d %d %d %d %d %d' % (tag, env.SEED * 100000 + k, scenario, W, N, na, mode)
         files = {'cmd.txt': cmd, 'stdout.txt': r.out[-200000:], 'stderr.txt': r.err[-8000:], 'module.wasm': b}
